@@ -210,7 +210,7 @@ def _e2e(item, res, viol):
         for mode, head in modes:
             gitd = None
             if mode in ("git", "disable_git"):
-                gitd = {"commits": commits, "head": hname(head), "is_repo": True}
+                gitd = {"commits": commits, "head": hname(head), "is_repo": True, "refs": {"ref-%d" % i: hname(i) for i in range(n)}}
             elif mode == "nocommits":
                 gitd = {"commits": {}, "head": None, "is_repo": True}
             config = "disable_git = true\n" if mode == "disable_git" else ""
@@ -242,11 +242,13 @@ def _e2e(item, res, viol):
             _check_run(run(["run", "//:top", "--again"]), want, True, "again", art, viol, versions)
             if mode == "git":
                 for c in range(n):
-                    o = run(["run", "//:top", "--at-least", hname(c)])
-                    if hname(c) not in ref.reach(commits, hname(head)):
-                        _expect_error(o, "at-least-not-ancestor", art, viol)
-                    else:
-                        _check_run(o, want, ref.at_least_rerun(want, commits, hname(c)), "at-least", dict(art, at_least=c), viol, versions)
+                    for spelling in (hname(c), "ref-%d" % c):
+                        o = run(["run", "//:top", "--at-least", spelling])
+                        if hname(c) not in ref.reach(commits, hname(head)):
+                            _expect_error(o, "at-least-not-ancestor", art, viol)
+                        else:
+                            _check_run(o, want, ref.at_least_rerun(want, commits, hname(c)), "at-least" if spelling == hname(c) else "at-least-symbol",
+                                       dict(art, at_least=c), viol, versions)
                 o = run(["run", "//:top", "--this-commit"])
                 _check_run(o, want, ref.at_least_rerun(want, commits, hname(head)), "this-commit", art, viol, versions)
                 _expect_error(run(["run", "//:top", "--at-least", "nosuchref"]), "bad-symbol", art, viol)
